@@ -136,6 +136,44 @@ fn check_level(unit: &Value, p: &bpaf::OptionParser<Val>, path: &[String], level
             ctx.violation(viol("hidden-and-alias-names-not-shown", unit, path, format!("{} must not appear", f), &text));
         }
     }
+    // rows sit under the heading of their own kind: the help flag is an option, it is listed
+    // under "Available options:" and under no other "Available .." heading
+    {
+        let mut heading = "";
+        let mut found = false;
+        for l in &lines {
+            if l.starts_with("Available ") && l.ends_with(':') {
+                heading = l;
+            }
+            if l.trim_start().starts_with("-h, --help") {
+                found = true;
+                if heading != "Available options:" {
+                    ok = false;
+                    ctx.violation(viol("rows-under-the-heading-of-their-kind", unit, path, "the -h, --help row under \"Available options:\"".into(), &text));
+                }
+            }
+        }
+        if !found && level.cfg.help_names.is_none() {
+            ok = false;
+            ctx.violation(viol("every-visible-item-has-a-row", unit, path, "a row for -h, --help".into(), &text));
+        }
+        // positional rows (four-space indent, upper-case metavariable first) never sit under
+        // the options heading
+        let mut heading = "";
+        for l in &lines {
+            if l.starts_with("Available ") && l.ends_with(':') {
+                heading = l;
+            }
+            for row in &vis.rows {
+                if let Row::Pos { help: Some(_), in_adjacent: false, .. } = row {
+                    if row_matches(l, row) && heading == "Available options:" {
+                        ok = false;
+                        ctx.violation(viol("rows-under-the-heading-of-their-kind", unit, path, format!("positional row {} not under \"Available options:\"", row.term()), &text));
+                    }
+                }
+            }
+        }
+    }
     // command rows only for visible commands
     if let Some(ci) = text.find("Available commands:") {
         let block = text[ci..].split("\n\n").next().unwrap_or("");
@@ -401,7 +439,7 @@ impl Check for C12 {
         run_def(unit, &u.opts, Some(&path), ctx);
     }
     fn rule(&self) -> String {
-        "definitions = every ordered tuple of <=3 distinct fields from 15 kinds (switch, env argument, short-only argument, hidden switch, aliases, alternative, group_help group, with_group_help, displayed fallback, hide_usage, custom_usage, the same item in two alternatives, adjacent group, repeated argument with a two-paragraph help, optional group) x 8 tails (none, positional with / without help, strict positional, choice of commands incl. a hidden one and aliases, nested commands of depth 3, a command beside a flag in one titled group, command paths differing only in dash versus nesting) x 4 option-level configurations; for EVERY command level reachable by visible commands the --help text is checked against an independent visibility calculator: each visible item has exactly one row with its first short/long name, metavariable and first help paragraph, env state shown, no option-like token that is not a visible name (hidden items, alias names, hidden commands never shown), command rows only for visible commands, descr < usage < header < lists < footer, each shown name accepted by the parser; hide_usage/custom_usage applied to every field leave everything after the usage block identical; evaluation = one run; non-trivial = level with all clauses satisfied".into()
+        "definitions = every ordered tuple of <=3 distinct fields from 15 kinds (switch, env argument, short-only argument, hidden switch, aliases, alternative, group_help group, with_group_help, displayed fallback, hide_usage, custom_usage, the same item in two alternatives, adjacent group, repeated argument with a two-paragraph help, optional group) x 8 tails (none, positional with / without help, strict positional, choice of commands incl. a hidden one and aliases, nested commands of depth 3, a command beside a flag in one titled group, command paths differing only in dash versus nesting) x 4 option-level configurations; for EVERY command level reachable by visible commands the --help text is checked against an independent visibility calculator: each visible item has exactly one row with its first short/long name, metavariable and first help paragraph, env state shown, no option-like token that is not a visible name (hidden items, alias names, hidden commands never shown), command rows only for visible commands, the help flag listed under the options heading and positionals not under it, descr < usage < header < lists < footer, each shown name accepted by the parser; hide_usage/custom_usage applied to every field leave everything after the usage block identical; evaluation = one run; non-trivial = level with all clauses satisfied".into()
     }
     fn bounds(&self, tier: Tier) -> Value {
         json!({"fields": "<=3 of 15 kinds + tail", "levels": "every command path, depth <=3"})
